@@ -10,6 +10,7 @@ import (
 	"hash/fnv"
 	"net"
 	"net/http"
+	neturl "net/url"
 	"sort"
 	"sync"
 	"time"
@@ -422,7 +423,7 @@ func (p *PeerPool) forwardRelease(ctx context.Context, owner, subscriberID strin
 		return fmt.Errorf("no address for peer %s", owner)
 	}
 
-	url := fmt.Sprintf("http://%s/pool/release/%s", peerAddr, subscriberID)
+	url := fmt.Sprintf("http://%s/pool/release/%s", peerAddr, neturl.PathEscape(subscriberID))
 	httpReq, err := http.NewRequestWithContext(ctx, "DELETE", url, nil)
 	if err != nil {
 		return fmt.Errorf("create request: %w", err)
